@@ -7,7 +7,8 @@
 (*   item  := @id:int (required) @flag:boolean?  title:string, qty:int,         *)
 (*            note:string?, sub?, memo? (mixed content, FIXED value "draft";    *)
 (*            present in the items that carry a flag), any{0,2} of another      *)
-(*            namespace, STRICT                                                 *)
+(*            namespace, STRICT; @ref:QName? (an item that has a note refers to  *)
+(*            "x:known": the prefix must be bound where the value is written)   *)
 (*            (x:known has a global declaration, x:unk has none; an item that   *)
 (*            has a note also carries one x:known)                              *)
 (*   sub   := qty:decimal+            (same local name, other declaration)      *)
@@ -55,6 +56,7 @@ ItemAttrs(c, d) ==
   (IF d = "missingid" THEN {} ELSE {<<"id", IF d = "badid" THEN "bad" ELSE "ok">>})
   \cup (IF c.flag \/ d = "badflag" THEN {<<"flag", IF d = "badflag" THEN "bad" ELSE "ok">>} ELSE {})
   \cup (IF d = "bogusattr" THEN {<<"bogus", "ok">>} ELSE {})
+  \cup (IF c.note THEN {<<"ref", "ok">>} ELSE {})
 
 RECURSIVE SubNodes(_, _, _)
 SubNodes(p, ks, i) == IF i > Len(ks) THEN <<>>
